@@ -33,7 +33,16 @@ def metamorphic(prop, repo_root):
     out = {}
     try:
         rc0, keys0 = _verdict(prop, repo_root, base)
-        probes = (("locals renamed (suffix)", "alpha_rename", ["_r"]), ("locals renamed (opaque)", "alpha_rename", ["OPAQUE"]), ("if/else arms swapped", "arm_swap", []))
+        probes = (
+            ("locals renamed (suffix)", "alpha_rename", ["_r"]),
+            ("locals renamed (opaque)", "alpha_rename", ["OPAQUE"]),
+            ("if/else arms swapped", "arm_swap", []),
+            ("temporaries introduced (hoisted argument, returned value, if test)", "temp_intro", ["all"]),
+            ("else after return removed", "restructure", ["unelse"]),
+            ("trailing if turned into a guard clause", "restructure", ["guard"]),
+            ("if/else assignments turned into conditional expressions", "restructure", ["toexp"]),
+            ("conditional expressions turned into if/else statements", "restructure", ["tostmt"]),
+        )
         for label, tool, extra in probes:
             root = tempfile.mkdtemp(prefix="t-", dir=base)
             env = dict(os.environ, XV_REPO=repo_root)
